@@ -501,3 +501,26 @@ func (p *Pattern) RelaxedMatchesAt(n *Tree) bool {
 	_, ok := m.Match(p.Minus, n, nil)
 	return ok
 }
+
+// RelaxedFirstStart returns where the first instance of a statement pattern
+// starts in container n when the metavariable rules are dropped.
+func (p *Pattern) RelaxedFirstStart(n *Tree) (int, bool) {
+	if p.Kind != PStmts || n == nil || n.Kind != KNode {
+		return 0, false
+	}
+	cf := containerField(n)
+	if cf == "" {
+		return 0, false
+	}
+	l := n.Field(cf)
+	if l.Kind != KList {
+		return 0, false
+	}
+	m := &Matcher{Holes: p.Spec.Holes, Relaxed: true}
+	env, ok := m.matchList(wrapped(p.Minus), l.Kids, nil)
+	if !ok {
+		return 0, false
+	}
+	lead, _ := env.Run(leadID)
+	return len(lead), true
+}
